@@ -248,6 +248,15 @@ func runSolver(ctx context.Context, sp solverSpec, file string, timeoutS int) (s
 	return "error", out, secs
 }
 
+// forget drops the in-process answer for an obligation's query (used before a retry with a longer limit).
+func (e *Engine) forget(o *Obligation) {
+	script, _ := e.buildScript(o, false)
+	h := sha256.Sum256([]byte(script))
+	scache.mu.Lock()
+	delete(scache.m, h)
+	scache.mu.Unlock()
+}
+
 func (e *Engine) solve(o *Obligation, outDir string, idx int, timeoutS int, both bool) *SolveResult {
 	script, d := e.buildScript(o, false)
 	res := &SolveResult{Bytes: len(script)}
